@@ -293,6 +293,41 @@ def check_once(c, mod, fun, args):
     return None
 
 
+def neighbour_call(c, fun, args, rnd):
+    """call `fun` once on deep copies of `args` with one Bool / Int / Real / Str argument changed; returns the changed argument
+    (for the replay file) or None when there is nothing to change"""
+    cand = [k for k, v in args.items() if isinstance(v, (bool, int, float, str)) and not (c.params and c.params.get(k) is S.Kwargs)]
+    if not cand:
+        return None
+    k = rnd.choice(cand)
+    v = args[k]
+    if isinstance(v, bool):
+        nv = not v
+    elif isinstance(v, int):
+        nv = v + rnd.choice([-1, 1, 2])
+    elif isinstance(v, float):
+        nv = v + rnd.choice([-0.5, 0.5, 1.0])
+    else:
+        nv = rnd.choice([s for s in ("closest", "lower", "higher", "trapezoid", "rectangle", "linear", "constant") if s != v])
+    pre = {a: deep_copy(b) for a, b in args.items()}
+    pre[k] = nv
+    run_prelude(c, fun, pre)
+    return {k: jsonable(nv)}
+
+
+def run_prelude(c, fun, pre):
+    try:
+        with warnings.catch_warnings():
+            warnings.simplefilter("ignore")
+            kw = {a: b for a, b in pre.items() if not (c.params and c.params.get(a) is S.Kwargs)}
+            for a, b in pre.items():
+                if c.params and c.params.get(a) is S.Kwargs:
+                    kw.update(b)
+            fun(**kw)
+    except Exception:      # noqa
+        pass
+
+
 def search(path, qual, seed, n, out, budget_s=20.0):
     import time
     mod = load_contracts(path)
@@ -322,7 +357,15 @@ def search(path, qual, seed, n, out, budget_s=20.0):
             continue
         valid += 1
         saved = {k: jsonable(v) for k, v in args.items()}
+        # history: with probability 1/2 a call with NEIGHBOURING arguments (one flag / scalar / string changed, everything else
+        # equal) precedes the checked call, on deep copies and with its outcome ignored.  State carried between calls (a memo
+        # keyed on too few arguments, a shared buffer handed out and written later) then shows in the checked call.
+        prelude = None
+        if rnd.random() < 0.5:
+            prelude = neighbour_call(c, fun, args, rnd)
         v = check_once(c, mod, fun, args)
+        if v is not None and prelude is not None:
+            v["preceded_by"] = prelude
         if v is not None:
             k = known_match(qual, v, saved)
             if k is not None:
@@ -364,6 +407,12 @@ def replay(path):
     c = S.REGISTRY[d["function"]]
     fun = resolve(c.opts.get("rt_target", d["function"]))
     args = {k: unjson(v) for k, v in d["args"].items()}
+    pb = (d.get("violated") or {}).get("preceded_by")
+    if pb:                     # the recorded history: the neighbouring call first, on its own copies
+        pre = {k: unjson(v) for k, v in d["args"].items()}
+        pre.update({k: unjson(v) for k, v in pb.items()})
+        run_prelude(c, fun, pre)
+        print(f"REPLAY: preceded by a call with {pb}")
     v = check_once(c, mod, fun, args)
     if v is None:
         print("REPLAY: no violation reproduced")
